@@ -29,6 +29,12 @@ Proof. vm_compute. reflexivity. Qed.
 Theorem C15_check_sound : forall b a, check b a = true -> allowed b a.
 Proof. exact Sound.check_sound. Qed.
 
+(** ... and the full acceptance test additionally guarantees that a well-formed statement tree
+    (no compound statement with an empty body, no `try` with neither handlers nor `finally`)
+    stays well-formed *)
+Theorem C15_accept_sound : forall b a, accept b a = true -> acceptable b a.
+Proof. exact Sound.accept_sound. Qed.
+
 (** Semantic preservation on the first-order Python subset the generator emits for the C01
     core: the optimised statements yield the same frame and effect trace whenever the
     unoptimised ones run, so C01's compile-correctness holds for optimised code. *)
@@ -63,6 +69,14 @@ Theorem C15_async_global_not_allowed : check Refuted.w_async (Opt.opt Refuted.w_
 Proof. exact Refuted.async_global_rejected. Qed.
 Theorem C15_dead_global_not_allowed : check Refuted.w_dead (Opt.opt Refuted.w_dead) = false /\ tag1 Refuted.w_dead = 8.
 Proof. exact Refuted.dead_global_rejected. Qed.
+(** F-15e (repaired): a finally clause of which nothing is left.  The emptied statement is
+    rejected by the acceptance test; the pass now leaves `finally: pass` (this obligation
+    breaks if visit_Try goes back to producing the emptied statement). *)
+Theorem C15_try_without_finally_rejected :
+  accept Refuted.w_try (Refuted.w_try_with []) = false /\
+  accept Refuted.w_try (Refuted.w_try_with [Nd T_Pass []]) = true /\
+  Opt.opt Refuted.w_try = Refuted.w_try_with [Nd T_Pass []].
+Proof. exact Refuted.try_without_finally_rejected. Qed.
 Example C15_accepted_sample : check Refuted.w_ok (Opt.opt Refuted.w_ok) = true /\ tree_eqb Refuted.w_ok (Opt.opt Refuted.w_ok) = false.
 Proof. exact Refuted.accepted_sample. Qed.
 
@@ -82,3 +96,5 @@ Print Assumptions C15_contains_swap_not_allowed.
 Print Assumptions C15_async_global_not_allowed.
 Print Assumptions C15_dead_global_not_allowed.
 Print Assumptions C15_accepted_sample.
+Print Assumptions C15_accept_sound.
+Print Assumptions C15_try_without_finally_rejected.
